@@ -89,6 +89,10 @@ def run(ctx):
                         "numeric literals that overflow to a non-finite float (1e999) are treated like the excluded literals Infinity / NaN"]
     files = record(ctx, ctx.tier == "quick")
     ctx.cov["traces_validated_against_impl"] = judge_files(ctx, files, mine)
+    if ctx.prop == "C05":
+        # spec growth (not part of the verdict): the method registry as a state machine
+        from checks import growth
+        growth.safely(ctx, growth.run_registry)
 
 
 def replay(ctx, path):
